@@ -280,12 +280,26 @@ def run(m: Model, r: Report, tier: str) -> None:
     # ---------------------------------------------------------------- R8
     w = m.require_function(f"{DOIP}.DoIPTransport.write")
     hs = [h for t in ast.walk(w.node) if isinstance(t, ast.Try) for h in t.handlers]
-    ok8 = len(hs) == 1 and hs[0].type is not None and ast.unparse(hs[0].type) == "DoIPNegativeAckError"
+    ok8 = len(hs) == 1 and hs[0].type is not None and ast.unparse(hs[0].type) == "DoIPNegativeAckError" and bool(hs[0].name)
     if ok8:
-        ifs = [s for s in hs[0].body if isinstance(s, ast.If)]
-        ok8 = len(ifs) == 1 and ast.unparse(ifs[0].test) == canon_text(f"{hs[0].name}.nack_code != DiagnosticMessageNegativeAckCodes.TargetUnreachable") \
-            and isinstance(ifs[0].body[0], ast.Raise)
-    r.check(ok8, "R8", w.qualname, "write must re-raise every NACK except TargetUnreachable (and swallow nothing else)", loc=w.loc)
+        # decided over the acknowledgement code: the handler re-raises exactly when the code is not TargetUnreachable (any spelling of the test)
+        from sa.cfg import CFG as _CFG8
+        from sa import miniterp as _mt8w
+        hname = hs[0].name
+        outcomes = {}
+        for code_ in ("TargetUnreachable", "OutOfMemory"):
+            env8 = {hname: "EXC", f"{hname}.nack_code": code_, "DiagnosticMessageNegativeAckCodes.TargetUnreachable": "TargetUnreachable"}
+            try:
+                _mt8w.exec_body(hs[0].body, env8)
+                outcomes[code_] = "swallowed"
+            except _mt8w.Raised:
+                outcomes[code_] = "raised"
+            except _mt8w._Return:
+                outcomes[code_] = "swallowed"
+            except AnalysisError:
+                outcomes[code_] = "?"
+        ok8 = None if "?" in outcomes.values() else outcomes == {"TargetUnreachable": "swallowed", "OutOfMemory": "raised"}
+    r.check3(ok8, "R8", w.qualname, "write must re-raise every NACK except TargetUnreachable (and swallow nothing else)", loc=w.loc)
 
     # ---------------------------------------------------------------- R9
     wr = m.require_function(f"{DOIP}.DoIPConnection.write_request_raw")
